@@ -15,11 +15,14 @@
    These are theorems about the code AFTER commit d3068df (finding 11 repaired: Abort / AbortLanes /
    AbortUnreadyLanes evaluate readiness once, after all statuses have been rewritten); before it the abort
    theorems were false (witness [C:Do; A:Done; B:Done], kept below as a regression example).
-   NOT PROVED (monitored on every observed history instead, see notes/C03.md): settling (liveness); agreement of
-   isChangeWaiting with the memo-free statement when tasks are in Wait; Err. *)
+   Also proved: Error is final and a failed task is named by Err whenever the change reports Error (names only).
+   NOT PROVED (monitored on every observed history instead, see notes/C03.md): settling (liveness; the progress step is
+   C01_no_deadlock_pass); agreement of isChangeWaiting with the memo-free statement when tasks are in Wait; the
+   messages of Err (task logs are not modelled). *)
 From Coq Require Import List NArith ZArith Bool.
 Import ListNotations.
-Require Import V.models.TaskEngine V.proofs.TaskEngineProofs V.proofs.TaskEngineStatus V.proofs.TaskEngineReady.
+Require Import V.models.TaskEngine V.proofs.TaskEngineProofs V.proofs.TaskEngineStatus V.proofs.TaskEngineReady
+               V.proofs.TaskEngineDoing V.proofs.TaskEngineFuel V.proofs.TaskEngineLive V.proofs.TaskEngineErr.
 
 (* Change.Status of a change with tasks is a ready status (Done, Undone, Hold, Error) iff every task is ready *)
 Theorem C03_status_ready_iff_all_tasks_ready : forall l : list task,
@@ -73,6 +76,25 @@ Theorem C03_ready_once : forall (g : list tdesc) (es es' : list event),
   cready s' = true /\ all_ready (tasks s') = true /\ ready (change_status (tasks s')) = true /\ panicked s' = false.
 Proof. exact ready_is_final. Qed.
 Print Assumptions C03_ready_once.
+
+(* Error is final: in every state satisfying the invariant of C03_ready_consistent no event rewrites a task in Error *)
+Theorem C03_error_is_final : forall (s : state) (e : event) (u : nat),
+  inv s -> st s u = Error -> st (step s e) u = Error.
+Proof. exact error_final_step. Qed.
+Print Assumptions C03_error_is_final.
+
+(* Err clause, PARTIAL (names, not messages): in every history with user aborts on unready changes only, a task whose
+   handler returned an error is in Error at every later point of the history, and whenever the change then reports
+   Error, Change.Err names it. That the line carries the error the task FAILED with (its last ERROR log line, not an
+   earlier one it logged itself) is outside the model - task logs are not modelled - and is checked by the driver's
+   per-task comparison of Err() on every observed history. *)
+Theorem C03_err_names_failed_tasks_partial : forall (g : list tdesc) (es1 es2 : list event) (t : nat),
+  g <> [] -> guarded (init_state g) (es1 ++ Finish t OErr :: es2) ->
+  In t (running (run_events (init_state g) es1)) ->
+  let s := run_events (init_state g) (es1 ++ Finish t OErr :: es2) in
+  st s t = Error /\ (change_status (tasks s) = Error -> In t (err_tasks (tasks s))).
+Proof. exact failed_task_stays_named. Qed.
+Print Assumptions C03_err_names_failed_tasks_partial.
 
 (* regression example, the former witness of finding 11: tasks [C waits A,B] after A and B completed, statuses
    [Do; Done; Done], change unready: Change.Abort now gives [Hold; Undo; Undo], no panic, change still unready
